@@ -2,7 +2,7 @@
 
 E2 bounded enumeration on the real Element / Substance / Material classes.
 
-  composite  Element B, O{17-2}, [p], [e]; Substance H2O, Ca(OH)2, C2H5OH (formula string and dictionary input) and
+  composite  Element B, O{17-2}, [p], [e], and B / O{17-2} with proportion 2 / 0.5; Substance H2O, Ca(OH)2, C2H5OH (formula string and dictionary input) and
              nucleon-first / nucleon-last substances [p][e], [e][p], [p]2O, O[n]2; materials starting / ending
              with a nucleon substance; Material by
              number fractions (string and dictionary input, 2 and 3 components) and by mass fractions (string and
@@ -20,6 +20,10 @@ E2 bounded enumeration on the real Element / Substance / Material classes.
              with w or not), then 1 (thorough 2) add() calls on the RESULT, then w is re-read: O1-O5 must still hold
              for w with its own amounts.  Reads with a component selection (data_matter / data_composite, both
              `quantity` flags) are made between the steps of every history.
+
+  selection  every selection (each single component, each pair) of data_matter() and data_composite(): exactly the
+             selected rows, every column equal to the row of the full table (static cases with the first density
+             value in canonical units, and the final object of every history).
 
 Oracle (statement only; m_i = component mass the object reports itself, amounts a_i = what the caller gave):
   O1  the given density is reported back unchanged (it is the one "attached");
@@ -96,13 +100,17 @@ COMPOSITES = {
 }
 # the `proportion` constructor option of a Substance (how many formula units it stands for as a component of a
 # material) must not enter its own densities: n is per formula unit, the rows use the atom counts.
-# Element(..., proportion != 1) with a density is left out: on the unpatched tree its row uses proportion * n while
-# n is derived from the mass of ONE atom (rho_B = 1.994 for rho = 0.997) - reported separately, not enumerated.
+# Element(..., proportion != 1) is included since the repair "composite_mass = proportion x atomic mass" (before it
+# the row used proportion * n while n was derived from the mass of ONE atom: rho_B = 1.994 for rho = 0.997).
 COMPOSITE_KW = {}
+COMPOSITES["element:B:proportion=2"] = ("Element", "expr", "B", {"B": 2}, "number")
+COMPOSITES["element:O{17-2}:proportion=0.5"] = ("Element", "expr", "O{17-2}", {"O{17-2}": 0.5}, "number")
 for _cid, _p in (("substance:H2O:str", 2), ("substance:H2O:dict", 0.5), ("substance:Ca(OH)2:str", 0.5),
                  ("substance:Ca(OH)2:dict", 2)):
     COMPOSITES[_cid + ":proportion=%s" % _p] = COMPOSITES[_cid]
     COMPOSITE_KW[_cid + ":proportion=%s" % _p] = dict(proportion=_p)
+COMPOSITE_KW["element:B:proportion=2"] = dict(proportion=2)
+COMPOSITE_KW["element:O{17-2}:proportion=0.5"] = dict(proportion=0.5)
 NUCLEON_COMPOSITES = [c for c in COMPOSITES if "[" in c]      # isotope mode is irrelevant: natural=True only
 
 # operation histories on live composites that carry a density (E1): every sequence of 1..HDEPTH add() calls; the
@@ -239,6 +247,28 @@ def _relations(cid, kind, value, vol, obs, amounts=None):
     return None
 
 
+def _selection_reads(obj, keys):
+    """every selection (each single component, each pair) of data_matter() and data_composite(): exactly the
+    selected rows, and every column of a selected row equals the row of the full table; returns None or
+    (behaviour, expected, observed)"""
+    for name in ("data_matter", "data_composite"):
+        fn = getattr(obj, name)
+        full = fn(quantity=False)
+        sels = [[k] for k in keys] + [list(c) for c in itertools.combinations(keys, 2)]
+        for sel in sels:
+            tab = fn(components=list(sel), quantity=False)
+            rows = [k for k in tab.keys() if k not in ("avg", "sum")]
+            if rows != sel:
+                return "selection-wrong-rows:" + name, sel, rows
+            for k in sel:
+                for col, v in tab[k].items():
+                    w = full[k][col]
+                    if isinstance(v, (int, float)) or hasattr(v, "dtype"):
+                        if not R.close(v, w, 1e-12):
+                            return "selection-row-differs:%s:%s" % (name, col), {k: float(w)}, {k: float(v)}
+    return None
+
+
 def _flat(obs):
     out = []
     for k in sorted(obs):
@@ -256,13 +286,21 @@ def check_case(cid, natural, kind, value, unit, vol, vunit):
     if len(amounts) >= 2:
         tags.append("components>=2")
 
+    selection = []
+
     def run(u, vu):
         obj = _build(cid, natural, kind, value, u, vol, vu)
-        return _observe(cid, obj, vol is not None)
+        obs_ = _observe(cid, obj, vol is not None)
+        if cls != "Element" and (u, vu) == (unit, vunit) and value in (RHO_VALUES[0], N_VALUES[0]) \
+                and unit in ("g/cm3", "cm-3") and vunit in (None, "l"):
+            selection.append(_selection_reads(obj, list(amounts)))
+        return obs_
     o = outcome(run, unit, vunit)
     if o[0] == "err":
         return failure("matter", case, "constructed and tabulated", list(o), tags, "raises:" + o[1])
     obs = o[1]
+    if selection and selection[0]:
+        return failure("selection", case, selection[0][1], selection[0][2], tags, selection[0][0])
     bad = _relations(cid, kind, value, vol, obs)
     if bad:
         return failure("matter", case, bad[1], bad[2], tags, bad[0])
@@ -355,10 +393,15 @@ def check_history(cid, natural, kind, value, vol, history):
                      "l" if vol is not None else None)
         obj = R.real_run(obj, history, None, cls == "Material", after_step=_light_reads)
         _light_reads(obj)
-        return _observe(cid, obj, vol is not None, amounts)
+        obs_ = _observe(cid, obj, vol is not None, amounts)
+        selection.append(_selection_reads(obj, list(amounts)))
+        return obs_
+    selection = []
     o = outcome(run)
     if o[0] == "err":
         return failure("history", case, "history executed and tabulated", list(o), tags, "raises:" + o[1]), amounts
+    if selection and selection[0]:
+        return failure("history", case, selection[0][1], selection[0][2], tags, selection[0][0]), amounts
     bad = _relations(cid, kind, value, vol, o[1], amounts)
     if bad:
         return failure("history", case, bad[1], bad[2], tags, bad[0]), amounts
@@ -487,17 +530,19 @@ def finish(total, tier, seed):
 
 
 MANIFEST = dict(
-    text="Bounded-exhaustive enumeration on the real Element / Substance / Material classes: 29 composites (elements "
-         "and nucleons, substances from string and dictionary and with the proportion option 2 / 0.5, number- and mass-fraction materials from string and "
+    text="Bounded-exhaustive enumeration on the real Element / Substance / Material classes: 31 composites (elements "
+         "and nucleons, elements and substances (string and dictionary) with the proportion option 2 / 0.5, number- and mass-fraction materials from string and "
          "dictionary, 1-3 components, nucleon-first and nucleon-last composites in both orders) x given mass density "
          "(3 values x 3 unit spellings) or number density (3 values x 2 spellings) x volume (none, 2 values x 3 "
-         "spellings) x both isotope modes (nucleon composites: one mode) = 4935 cases, complete in both tiers. "
+         "spellings) x both isotope modes (nucleon composites: one mode) = 5355 cases, complete in both tiers. "
          "Checked: the given density is kept, rho = n M_formula, rho = sum n_i m_i, n_i = amount_i n, sum rho_i = rho, "
          "M = rho V, sum M_i = M (rel 1e-10) and independence of the unit spelling (rel 1e-12). The same relations "
          "after every history of <= 2 (thorough 3) add() calls {existing first / last, new component} on 6 live "
          "composites x given rho / n x with / without volume x both isotope modes, with partial table reads between "
          "the steps; and with the density-carrying composite as an operand of +, += and * whose result is then "
-         "modified with add() (the operand is re-read).",
+         "modified with add() (the operand is re-read). Every selection (each single component, each pair) of "
+         "data_matter() and data_composite() must return exactly the selected rows of the full table (static cases "
+         "with the first density value, final object of every history).",
     note="Trusted: component masses reported by the object (C10), the Dalton row of the unit table, exact decimal "
          "factors between the unit spellings. Not covered: N column, avg row, both densities given, in-place "
          "conversion of the caller's Quantity objects.",
